@@ -5,10 +5,14 @@
 //! lend_from into_iter_from into_lender index_of contains`.
 //! The private fields `(k, len, is_sorted, data, pointers)` are read through the derived `Debug`.
 //! Naive oracle: the `Vec<Vec<u8>>` of pushed strings; an independent (loop-style) re-encoder for
-//! `parts`.  About 5 % of the probes of `index_of`/`contains` contain NUL bytes (sorted and
+//! `parts`.  Op `vbyte <value> <tail hex>` drives the private `encode_int` / `encode_int_len` /
+//! `decode_int` through the `#[cfg(sux_verif)]` hook `verif_vbyte`; only values below
+//! `2^63 + UPPER_BOUND_8` are ever sent (from there on `encode_int_len` does not terminate, theorem
+//! `encode_len_diverges`).  About 5 % of the probes of `index_of`/`contains` contain NUL bytes (sorted and
 //! unsorted lists): such keys are never stored and must be reported absent.
 use crate::common::*;
 use lender::{ExactSizeLender, IntoLender, Lender};
+use sux::dict::rear_coded_list::verif_vbyte;
 use sux::dict::{RearCodedList, RearCodedListBuilder};
 use sux::traits::{IndexedDict, IndexedSeq, IntoIteratorFrom};
 
@@ -96,6 +100,18 @@ fn parts_of(rcl: &RearCodedList) -> (usize, usize, bool, Vec<u8>, Vec<usize>) {
 }
 
 /// loop-style vbyte: `n` bytes cover `128 + 128^2 + .. + 128^n` values (n ≤ 8), else 0xFF + 8 bytes
+/// `UPPER_BOUND_k` of the source, k = 0..=8 (`UB[0] = 0`)
+fn upper_bounds() -> [u128; 9] {
+    let mut ub = [0u128; 9];
+    for k in 1..=8 {
+        ub[k] = ub[k - 1] + 128u128.pow(k as u32);
+    }
+    ub
+}
+
+/// `2^63 + UPPER_BOUND_8`: first value on which `encode_int_len` loops forever
+const VBYTE_LIMIT: u128 = (1u128 << 63) + 72624976668147840;
+
 fn naive_vbyte(v: u64, out: &mut Vec<u8>) {
     let mut lo: u128 = 0;
     let mut span: u128 = 128;
@@ -173,6 +189,22 @@ fn exec(ctx: &mut Ctx, s: &mut S, op: &str) {
                 );
             }
             (r.map(|_| "ok".into()), o)
+        }
+        "vbyte" => {
+            let v: u64 = t[1].parse().unwrap();
+            assert!(
+                (v as u128) < VBYTE_LIMIT,
+                "vbyte: encode_int_len does not terminate for this value"
+            );
+            let tail = unhex(t[2]);
+            let r = catch(|| {
+                let (code, len, dec, rest) = verif_vbyte(v as usize, &tail);
+                format!("ok {} {} {} {}", hex(&code), len, dec, rest)
+            });
+            let mut ocode = vec![];
+            naive_vbyte(v, &mut ocode);
+            let o = format!("ok {} {} {} {}", hex(&ocode), ocode.len(), v, tail.len());
+            (r, o)
         }
         "build" => {
             s.rcl = Some(s.builder.clone().build());
@@ -559,8 +591,53 @@ fn rear_case(ctx: &mut Ctx, rear: usize, common: usize, k: usize) {
     ctx.stat("rear-boundary");
 }
 
+const TAILS: &[&str] = &["-", "00", "ff80", "7f", "fe0102030405060708", "80"];
+
+fn vbyte_directed(ctx: &mut Ctx) {
+    ctx.case();
+    let mut s = fresh();
+    let ub = upper_bounds();
+    let mut vals: Vec<u128> = vec![0, 1, 2, 127, (1 << 63) - 1, 1 << 63, (1 << 63) + 1, VBYTE_LIMIT - 1];
+    for k in 1..=8 {
+        vals.extend([ub[k] - 1, ub[k], ub[k] + 1, ub[k] + 255, ub[k] + 256]);
+    }
+    for j in 0..=63u32 {
+        let p = 1u128 << j;
+        vals.extend([p - 1, p, p + 1]);
+    }
+    for (i, v) in vals.iter().enumerate() {
+        if *v >= VBYTE_LIMIT {
+            continue;
+        }
+        exec(ctx, &mut s, &format!("vbyte {} {}", v, TAILS[i % TAILS.len()]));
+        exec(ctx, &mut s, &format!("vbyte {} -", v));
+    }
+    ctx.shape("vbyte:directed".into());
+}
+
+/// random values in every code-length class, random tails
+fn vbyte_random(ctx: &mut Ctx) {
+    ctx.case();
+    let mut s = fresh();
+    let ub = upper_bounds();
+    for _ in 0..40 {
+        let k = 1 + ctx.rng.usize_below(9);
+        let (lo, hi) = if k == 9 { (ub[8], VBYTE_LIMIT) } else { (ub[k - 1], ub[k]) };
+        let v = match ctx.rng.below(4) {
+            0 => lo + (ctx.rng.below(300) as u128).min(hi - lo - 1),
+            1 => hi - 1 - (ctx.rng.below(300) as u128).min(hi - lo - 1),
+            _ => lo + (ctx.rng.next_u64() as u128) % (hi - lo),
+        };
+        let tail: Vec<u8> = (0..ctx.rng.usize_below(4)).map(|_| ctx.rng.next_u64() as u8).collect();
+        ctx.stat(&format!("vbyte:len{}", k));
+        exec(ctx, &mut s, &format!("vbyte {} {}", v, hex(&tail)));
+    }
+    ctx.shape("vbyte:random".into());
+}
+
 /// hand-listed cases hitting every model branch, independent of the seed
 fn directed(ctx: &mut Ctx) {
+    vbyte_directed(ctx);
     let w = |xs: &[&str]| -> Vec<String> { xs.iter().map(|x| x.to_string()).collect() };
     let lists: Vec<Vec<String>> = vec![
         w(&[]),
@@ -707,8 +784,11 @@ fn random_case(ctx: &mut Ctx) {
 pub fn run(ctx: &mut Ctx) {
     directed(ctx);
     let n = if ctx.tier == Tier::Quick { 1200 } else { 12000 };
-    for _ in 0..n {
+    for i in 0..n {
         random_case(ctx);
+        if i % 20 == 0 {
+            vbyte_random(ctx);
+        }
     }
 }
 
